@@ -506,6 +506,14 @@ def check_C04(tier, seed):
     scs = random_scripts(rng, 300 if tier == "quick" else 5000, policies, ("L", "RT", "T"), max_n=14,
                          style=lambda r: r.choice(["complete", "direct", "random", "complete+self"]))
     F.execute_and_validate("C04", exe, scs, out, "c04-rnd", TCFG)
+    # several updates in one process: classes, methods and definitions come and go, v-tables move and the dispatch data is
+    # reallocated; after every update the layout of THAT update is recorded and every call must read its cells only
+    # (a v-table pointer that survives from an earlier update shows here)
+    hs = []
+    for i in range(150 if tier == "quick" else 3000):
+        hist, mpool = random_history(rng, 1, rng.randrange(15, 50))
+        hs.append(S.history_script("c04-hist-%d" % i, [[p] for p in policies + ["stdmap", "chk"]], hist, shape_k=i, layout_too=True))
+    F.execute_and_validate("C04", exe, hs, out, "c04-hist", TCFG)
     if tier == "thorough":
         # the same traces under AddressSanitizer: an out-of-bounds read of the dispatch data kills the child
         asan = C.build_dyn(san="address")
@@ -522,7 +530,9 @@ def check_C04(tier, seed):
                     extra_cov={"policies": policies})
 
 
-def real_class_programs(pid, regs, rng, out, nprog, tier, per=8):
+def real_class_programs(pid, regs, rng, out, nprog, tier, per=8, staged=None):
+    # staged: tuple of stages -- a two-stage build (generator program, then applications compiled with the generated
+    # slots.hpp / tables.hpp), default-policy scenarios only; see lattice_emit.program
     """gen harness: inheritance graphs as real C++ hierarchies, registered by register_classes statements
     that split the graph at random (every direct edge inside some statement); probe method per class,
     a two-parameter method with random definitions; logs validated by TraceYomm2."""
@@ -580,7 +590,9 @@ def real_class_programs(pid, regs, rng, out, nprog, tier, per=8):
             # front-end variants: how classes are registered, how methods are declared and called, how definitions are
             # attached (macros, containers, the core API with its four ways of getting a next pointer, member functions),
             # and which policy the scenario lives in (scenarios of one policy form one registry)
-            style = {"pol": rng.choice([0, 0, 1, 2]) if si >= 2 else 0, "reg": {}, "cuts": {}, "meth": {}, "def": {}, "call": {}}
+            # policies: 0 default, 1 derived from it by rebind, 2 hand-assembled with a pointer map, 3 custom ids that differ
+            # only above bit 31 (perfect hash), 4 deferred custom ids (pointer map)
+            style = {"pol": rng.choice([0, 0, 1, 2, 3, 4, 5]) if si >= 2 and not staged else 0, "reg": {}, "cuts": {}, "meth": {}, "def": {}, "call": {}}
             for i, st in enumerate(statements):
                 style["reg"][i] = rng.choice(["classes", "classes", "use", "decl", "nested", "nested"])
                 if style["reg"][i] == "nested" and len(st) > 1:
@@ -592,7 +604,9 @@ def real_class_programs(pid, regs, rng, out, nprog, tier, per=8):
                 style["def"][(m, d)] = rng.choice(["plain", "box", "inline", "api_next", "api_next", "api_use", "api_own", "api_plain", "api_fun", "api_fun0", "member"])
             scen.append((idx, classes, edges, statements, methods, dd, abstract, shapes, style))
         name = "real%d" % pi
-        sources[name] = LE.program(name, scen)
+        sources[name] = LE.program(name, scen, staged=bool(staged))
+    if staged:
+        return staged_run(pid, sources, staged, out, tier)
     res = gen.build_and_run(sources, extra=(["-DNDEBUG"] if tier == "quick" else []))
     F.validate_program_outputs(pid, res, sources, out, pid.lower() + "-real", {"C17": "TraceYomm2_report.cfg", "C02": "TraceYomm2_errrec.cfg"}.get(pid, "TraceYomm2_plain.cfg"), "TraceYomm2.tla")
     if tier == "thorough":
@@ -600,6 +614,48 @@ def real_class_programs(pid, regs, rng, out, nprog, tier, per=8):
         F.validate_program_outputs(pid, res2, {k + "_dbg": v for k, v in sources.items()}, out, pid.lower() + "-real-dbg",
                                    {"C17": "TraceYomm2_report.cfg", "C02": "TraceYomm2_errrec.cfg"}.get(pid, "TraceYomm2_plain.cfg"), "TraceYomm2.tla")
     out.notes.append("%d generated programs with real class hierarchies (x %d scenarios each)" % (len(sources), per))
+
+
+def staged_run(pid, sources, stages, out, tier):
+    """Two-stage builds of generated real-class programs: stage 1 runs update and writes slots.hpp (generated static
+    offsets) and tables.hpp (encoded dispatch data) with the real generator; the later stages are the same source compiled
+    with those headers.  Every stage logs like an ordinary real-class program and is validated by TraceYomm2."""
+    sys_path_gen()
+    import gen
+    flavours = [("", [])] if tier == "quick" else [("", []), ("_rel", ["-DNDEBUG"])]
+    if tier == "quick" and pid == "C12":
+        flavours = [("", []), ("_rel", ["-DNDEBUG"])]     # checked (debug) and unchecked (release) default policy
+    total = {"so": 0, "installed": 0, "programs": 0}
+    for tag, extra in flavours:
+        srcs = {k + tag: v.replace('\\"script\\":\\"%s.s' % k, '\\"script\\":\\"%s.s' % (k + tag)) for k, v in sources.items()}
+        res, generated = gen.build_and_run_staged(srcs, stages=stages, extra=extra)
+        by_prog = {}
+        for k in res:
+            by_prog[k] = srcs[k.rsplit(".s", 1)[0]]
+        F.validate_program_outputs(pid, res, by_prog, out, pid.lower() + "-staged" + tag, "TraceYomm2_plain.cfg", "TraceYomm2.tla")
+        for k, (rc, text) in res.items():
+            st = int(k.rsplit(".s", 1)[1])
+            if rc is not None:
+                total["programs"] += 1
+                if st in (2, 3):
+                    total["so"] += text.count('"so":1')
+                    if '"so":0' in text:
+                        raise C.ToolFailure("vacuous: %s was compiled with slots.hpp but a method does not use static offsets" % k)
+                if st in (3, 4):
+                    total["installed"] += text.count('"e":"installed"')
+        for name, gf in generated.items():
+            if not out.samples or len(out.samples) < 2:
+                out.samples.append({"program": name, "slots.hpp_head": (gf.get("slots.hpp") or "").splitlines()[:3],
+                                    "tables.hpp_head": (gf.get("tables.hpp") or "").splitlines()[:12]})
+    if out.rejections:      # a verdict comes before any complaint about coverage
+        return total
+    if (set(stages) & {2, 3}) and not total["so"]:
+        raise C.ToolFailure("vacuous: no method was compiled with generated static offsets")
+    if (set(stages) & {3, 4}) and not total["installed"]:
+        raise C.ToolFailure("vacuous: no program installed its dispatch data from a generated tables.hpp")
+    out.notes.append("%d staged program runs (stages %s): %d methods compiled with generated static offsets, %d installations from generated tables.hpp"
+                     % (total["programs"], "/".join(map(str, stages)), total["so"], total["installed"]))
+    return total
 
 
 def check_C08(tier, seed):
@@ -883,7 +939,11 @@ def check_C10(tier, seed):
                          style=lambda r: r.choice(["complete", "direct", "random"]))
     F.execute_and_validate("C10", exe, scs, out, "c10-rnd", TCFG)
     F.selftest_corruption(exe, scs[0], out, mutate_first("table", flip_table_row), "one outcome altered", TCFG)
-    # how many executions did not merge with the others (a flavour that disagrees is validated, and rejected, on its own)
+    # real class hierarchies through the template front end: scenarios of one program live in the default policy (std ids), a
+    # policy derived from it, a hand-assembled one, one with custom ids carried by the objects (differing only above bit 31)
+    # one with deferred custom ids, one with indirect v-table pointers
+    lat = F.gen_registries("GenLat_P4any.cfg", out, module="GenLat.tla")
+    real_class_programs("C10", lat, rng, out, 8 if tier == "quick" else 80, tier)
     return F.report("C10", tier, seed, out, t0, LEVEL,
                     rule="a case = one registry (or history) executed under one RTTI flavour / policy: std type_info ids, custom integer ids, "
                          "ids with a many-to-one type_index projection (three ids per class, objects created under each registered id, catalog "
@@ -1075,6 +1135,76 @@ def vptr_script(rng, sid, policies, n=None):
     return s
 
 
+def bare_vptr_script(rng, sid, policies, early):
+    """Handles where nothing has been dispatched yet.  early = False: classes but NO method at all (the dispatch data is
+    empty and every v-table pointer is null although every class is registered): handles by every route, read back.
+    early = True (indirect policies): handles for the exact static type are created BEFORE the first update and between a
+    registration and the next update, then used after the update."""
+    n = rng.randrange(3, 8)
+    classes, edges, _, _, abstract, kind = S.random_registry(rng, n, 0, 1, 0)
+    anc = S.anc_closure(edges, classes)
+    cov = {c: [x for x in classes if c in anc[x]] for c in classes}
+    chain = pick_chain(rng, classes, anc)
+    s = S.Script(sid, [[p] for p in policies])
+    for k, c in enumerate(chain):
+        s.node(k, c)
+    for c, bases in S.presentation(rng.choice(["direct", "complete"]), classes, edges, rng):
+        s.cls(c, bases)
+    h = [0]
+    shared = {}
+
+    def make(k, routes, dyn):
+        h[0] += 1
+        route = rng.choice(routes)
+        s.vmake(h[0], k, route, dyn)
+        shared[h[0]] = route.startswith("sh") or route == "mk"
+        return h[0]
+
+    def exact(k):
+        return make(k, ["ref", "final", "sh_lv", "sh_rv", "sh_final", "mk"], chain[k])
+
+    arity = {}
+
+    def use(mp, mq, x):     # a method taking virtual_ptr for plain handles, virtual_shared_ptr for shared ones
+        m = mq if shared[x] else mp
+        s.vcall(m, [x] * arity[m])
+    root = rng.choice(sorted(anc[chain[0]]))
+
+    def declare(mp, mq, shp="P", shq="Q"):
+        for m, sh in ((mp, shp), (mq, shq)):
+            arity[m] = len(sh)
+            s.method(m, sh, [root] * len(sh))
+            for d in range(rng.randrange(1, 4)):
+                s.defn(m, d, [rng.choice(cov[root]) for _ in sh])
+    if not early:
+        s.update()
+        hs = []
+        for _ in range(rng.randrange(3, 9)):
+            k = rng.randrange(len(chain))
+            hs.append(exact(k) if rng.random() < 0.5 else make(k, ["ref", "sh_lv", "sh_base"], rng.choice(cov[chain[k]])))
+        for x in hs:
+            s.vget(x)
+        # now methods appear: handles made so far are stale under direct policies, usable under indirect ones
+        declare(1, 2)
+        s.update()
+        for x in hs:
+            use(1, 2, x)
+        return s
+    declare(1, 2)
+    hs = [exact(rng.randrange(len(chain))) for _ in range(rng.randrange(2, 6))]
+    s.update()
+    for x in hs:
+        use(1, 2, x)
+        s.vget(x)
+    declare(3, 4, "R", "QQ")      # catalogs change: not fresh any more
+    more = [exact(rng.randrange(len(chain))) for _ in range(rng.randrange(1, 4))]
+    s.update()
+    for x in hs + more:
+        use(3, 4, x)
+        use(1, 2, x)
+    return s
+
+
 def check_C09(tier, seed):
     TCFG = "TraceYomm2_dispatch.cfg"
     t0 = time.time()
@@ -1085,6 +1215,9 @@ def check_C09(tier, seed):
     F.model_check(out, "VptrMC.tla", "VptrMC.cfg")
     scs = [vptr_script(rng, "vp-%d" % i, VP_POLICIES) for i in range(400 if tier == "quick" else 8000)]
     F.execute_and_validate("C09", exe, scs, out, "c09", TCFG)
+    bare = [bare_vptr_script(rng, "vp-bare-%d" % i, VP_POLICIES, False) for i in range(60 if tier == "quick" else 1000)]
+    bare += [bare_vptr_script(rng, "vp-early-%d" % i, ["ind", "indvec", "indfast"], True) for i in range(60 if tier == "quick" else 1000)]
+    F.execute_and_validate("C09", exe, bare, out, "c09-bare", TCFG)
 
     def other_object(ev):
         if ev.get("o", -1) >= 0 and ev["recv"]:
@@ -1220,6 +1353,11 @@ def check_C15(tier, seed):
     F.execute_and_validate("C15", exe, scs, out, "c15-mc", TCFG)
     scs = unknown_scripts(rng, 600 if tier == "quick" else 10000, CHECKED)
     F.execute_and_validate("C15", exe, scs, out, "c15-rnd", TCFG)
+    # the other side of "always reported": a REGISTERED class must not be reported -- not even when the policy has no method at
+    # all (every v-table pointer is null) or, for indirect handles of the exact static type, before the first update
+    bare = [bare_vptr_script(rng, "c15-bare-%d" % i, CHECKED, False) for i in range(40 if tier == "quick" else 600)]
+    bare += [bare_vptr_script(rng, "c15-early-%d" % i, ["ind"], True) for i in range(40 if tier == "quick" else 600)]
+    F.execute_and_validate("C15", exe, bare, out, "c15-bare", TCFG)
     n_unknown_upd = 0
     for s in scs[:40]:
         def wrong_class(ev):
@@ -1667,6 +1805,9 @@ def check_C12(tier, seed):
                 return True
         return False
     F.selftest_corruption(exe, scs[0], out, mutate_first("offsets", shift), "one number altered in the recorded generator output", TCFG)
+    # the emitted header compiled for real: generator stage, then the same source built with the generated slots.hpp
+    lat = F.gen_registries("GenLat_P4any.cfg", out, module="GenLat.tla")
+    real_class_programs("C12", lat, rng, out, 4 if tier == "quick" else 40, tier, per=6, staged=(2,))
     c = out.action_counts
     if not c.get("offsets") or not c.get("sload"):
         raise C.ToolFailure("vacuous: generator output never recorded")
@@ -1747,6 +1888,11 @@ def check_C13(tier, seed):
     out.notes.append("%d compilations of emitted dispatch data (g++ and clang++ -fsyntax-only), %d texts" % (compiled, len(texts)))
     if not texts:
         raise C.ToolFailure("no emitted text captured")
+    # the whole path for real: a generator program writes tables.hpp (and slots.hpp), the same source is then compiled with
+    # them and never calls update: with and without static offsets, every outcome table, error record and next of every
+    # definition (called from inside the definitions) must be as after update
+    lat = F.gen_registries("GenLat_P4any.cfg", out, module="GenLat.tla")
+    real_class_programs("C13", lat, rng, out, 4 if tier == "quick" else 40, tier, per=6, staged=(3, 4))
     if tier == "thorough":
         asan = C.build_dyn(san="address")
         F.execute_and_validate("C13", asan, scs[:2000], out, "c13-asan", TCFG)
